@@ -1,0 +1,33 @@
+//go:build verif
+
+package protocol
+
+import "github.com/hujm2023/go-sms-protocol/datacoding"
+
+// Verification hooks (build tag "verif" only): thin exports of unexported
+// functions so that an external harness can drive them.  No behaviour.
+
+// VerifSplitWithUDHI exposes splitWithUDHI.
+func VerifSplitWithUDHI(data []byte, perMsgLength int, frameKey byte) [][]byte {
+	return splitWithUDHI(data, perMsgLength, frameKey)
+}
+
+// VerifEncodeAndSplitGSM7Packed exposes encodeAndSplitGSM7Packed.
+func VerifEncodeAndSplitGSM7Packed(content string, frameKey byte) ([][]byte, datacoding.SMPPDataCoding, error) {
+	return encodeAndSplitGSM7Packed(content, frameKey)
+}
+
+// VerifSortCandidates runs the batch encoder's real sorter over candidates given as
+// (data coding, number of parts) and returns the data codings in sorted order.
+func VerifSortCandidates(codings []datacoding.ProtocolDataCoding, parts []int) []datacoding.ProtocolDataCoding {
+	encoders := make([]*encoder, 0, len(codings))
+	for i, c := range codings {
+		encoders = append(encoders, &encoder{msgFmt: c, canEncode: true, data: make([][]byte, parts[i])})
+	}
+	encoderOrderBy(byLength, byDataCoding).Sort(encoders)
+	out := make([]datacoding.ProtocolDataCoding, 0, len(encoders))
+	for _, e := range encoders {
+		out = append(out, e.msgFmt)
+	}
+	return out
+}
